@@ -503,7 +503,8 @@ def setup(run):
         if not np.any(ok):
             return m_type.skip("zero vectors")
         with np.errstate(all="ignore"):
-            noise = 1e-9 * np.where(ny > 0, (nx * s2 / np.where(ny > 0, ny, 1.0)) ** 2, np.inf)
+            noise = (1e-9 + 1e3 * M.shape[-1] * pa["err"]) * \
+                np.where(ny > 0, (nx * s2 / np.where(ny > 0, ny, 1.0)) ** 2, np.inf)
         bad_t = ok & (qx < -1e-6) & ~(qy < noise)           # timelike became non-timelike
         bad_s = ok & (qx > 1e-6) & ~(qy > -noise)
         bad_l = ok & (np.abs(qx) <= 1e-13) & ~(np.abs(qy) <= noise)
@@ -761,6 +762,9 @@ def check_action(run, T, rng, sig, case=None, reps=2):
     s2 = float(np.max(np.linalg.norm(M, ord=2, axis=(-2, -1))))
     pshape = shape if shape else (5,)
     case = case if case is not None else run.current_case
+    # the isometry's own accuracy (cancellation in compositions) enters every bound
+    pe = _prov.get(T)
+    merr = 100.0 * (n + 1) * (pe["err"] if pe else 16 * EPS)
     for r in range(reps):
         cls = POINT_CLASSES[int(rng.integers(0, len(POINT_CLASSES)))]
         kx, ky = point_classes(rng, n, pshape, cls)
@@ -791,9 +795,9 @@ def check_action(run, T, rng, sig, case=None, reps=2):
             if cls in ("near-coincident", "identical"):
                 # (the reference distance is the cancellation-free arcsinh form, so no
                 # square-root rule is needed near d = 0; measured <= 2e-12)
-                tol = 1e-8 + 1e-11 * cond
+                tol = 1e-8 + (1e-11 + 10 * merr) * cond
             else:
-                tol = 1e-7 + 1e-11 * cond
+                tol = 1e-7 + (1e-11 + 10 * merr) * cond
             dr = _state.setdefault("distance_ratio", {})
             dr[cls] = max(dr.get(cls, 0.0), float(np.max(np.abs(d1 - d0))) / tol)
             mon.judge(float(np.max(np.abs(d1 - d0))), tol,
@@ -808,7 +812,8 @@ def check_action(run, T, rng, sig, case=None, reps=2):
         rng.choice([-1.0, 1.0], size=pshape + (1,)) * rng.uniform(0.5, 2.0, size=pshape + (1,))
     ii = np.asarray(T.apply(Point(I.copy())).proj_data, dtype=float)
     with np.errstate(all="ignore"):
-        noise = 1e-11 * (np.linalg.norm(I, axis=-1) * s2 / np.linalg.norm(ii, axis=-1)) ** 2
+        noise = (1e-11 + 10 * merr) * (np.linalg.norm(I, axis=-1) * s2 /
+                                       np.linalg.norm(ii, axis=-1)) ** 2
     mon.require(bool(np.all(np.abs(ri.qrel(ii)) <= noise)),
                 "distance-type/ideal-point-leaves-the-boundary",
                 "image of an ideal point is not ideal %r" % (sig,),
@@ -895,6 +900,20 @@ def wl_origin(run, rng, idx):
         run.note_class("spacelike_to", n, shape, fo, "lightlike-kernel" if (n >= 2 and idx % 3 == 0) else "generic")
         T3 = spacelike_to(sv, force_oriented=fo)             # P
         check_action(run, T3, rng, ("spacelike_to", n, shape, fo), reps=1)
+    if idx % 16 == 1 and n >= 2:
+        # out-of-domain arguments are refused (documented GeometryError); recorded, not
+        # part of the property
+        from geometry_tools.projective import GeometryError
+        mon = run.monitor("constructor-form")
+        sp = np.zeros(n + 1)
+        sp[1] = 1.0
+        for f, arg, what in ((timelike_to, sp, "timelike_to(spacelike)"),
+                             (spacelike_to, X.reshape(-1, n + 1)[0].copy(), "spacelike_to(timelike)")):
+            try:
+                f(arg)
+                mon.diag(what + " did not raise")
+            except GeometryError:
+                pass
     if idx < 2:
         run.sample({"workload": "origin", "dimension": n, "shape": list(shape),
                     "radius_class": rad, "points": X})
@@ -1018,6 +1037,11 @@ def wl_standard(run, rng, idx):
         run.sample(dict(case, workload="standard", matrix_rows=np.asarray(T.proj_data)))
 
 
+def hyperbolic_module():
+    from geometry_tools import hyperbolic
+    return hyperbolic
+
+
 def wl_reflections(run, rng, idx):
     from geometry_tools.hyperbolic import Hyperplane, Geodesic, Subspace
     from . import c15
@@ -1046,6 +1070,14 @@ def wl_reflections(run, rng, idx):
         W = Geodesic(P.copy()) if n == 2 else Subspace(P.copy())
     else:
         W = Hyperplane(arg)
+    ideal_all, normal_all = c15.ideal_rows_of(W, hyperbolic_module())
+    sane = all(c15.wall_domain(iu, None if normal_all is None else c15._units(normal_all, 1)[k])[0]
+               is not None for k, iu in enumerate(c15._units(ideal_all, 2)))
+    if not sane:
+        # Hyperplane(v) itself is not one of C02's constructors; a broken wall comes
+        # from spacelike_to, whose postcondition has already reported it
+        run.monitor("constructor-form").diag("Hyperplane(v) came out degenerate (see spacelike_to)")
+        return
     R = W.reflection_across()                                # P
     if must_be_certified(run, R, "reflection_across") and cls != "far":
         check_action(run, R, rng, sig, reps=1)
@@ -1231,6 +1263,40 @@ def wl_library_internal(run, rng, idx):
         run.sample({"workload": "library-internal", "kind": kind})
 
 
+def wl_repo_tests(run, rng, idx):
+    """the repository's own geometry tests with the postconditions attached:
+    every isometry the suite constructs or composes is judged (the tests' own
+    outcomes are not ours)."""
+    from .. import pytest_run
+    names = ("constructor-form", "provenance-form", "frame-completion", "apply-type")
+    before = {k: run.monitor(k).evals for k in names}
+    files = ["test_hyperbolic.py", "test_projective.py", "test_representation.py",
+             "test_drawing.py", "test_utils.py"]
+    run.current_case = {"repo_tests": files}
+    out = pytest_run.run_repo_tests(run, files)
+    run.extra["repo_tests"] = dict(
+        {"ran": len(out), "passed": sum(1 for v in out.values() if v == "passed")},
+        **{"evaluations:" + k: run.monitor(k).evals - before[k] for k in names})
+    if out:
+        run.note_class("repo-tests", len(files))
+
+
+def wl_docs(run, rng, idx):
+    """README / docstring programs and examples/*.py as end-to-end workloads
+    (tilings by Coxeter words, regular polygons); whether they run is C12's
+    question, here only the ambient postconditions judge."""
+    from .. import examples
+    progs = examples.programs()
+    if not progs:
+        return
+    doc, bl = progs[idx % len(progs)]
+    run.current_case = {"document": doc}
+    before = run.monitor("constructor-form").evals + run.monitor("provenance-form").evals
+    examples.run_program(doc, bl, shrink=(run.tier == "quick"))
+    if run.monitor("constructor-form").evals + run.monitor("provenance-form").evals > before:
+        run.note_class("doc", doc)
+
+
 def finalize(run):
     run.extra["provenance"] = {"compositions_checked": _state["compositions"]}
     run.extra["distance_residual_over_tolerance_max"] = {
@@ -1240,11 +1306,13 @@ def finalize(run):
 
 
 WORKLOADS = [
-    Workload("origin", wl_origin, quick=400, thorough=32000),
-    Workload("tangent", wl_tangent, quick=300, thorough=24000),
-    Workload("standard", wl_standard, quick=450, thorough=28800),
-    Workload("reflections", wl_reflections, quick=288, thorough=19200),
-    Workload("coxeter", wl_coxeter, quick=96, thorough=2880),
-    Workload("words", wl_words, quick=450, thorough=32000),
-    Workload("library-internal", wl_library_internal, quick=80, thorough=4800),
+    Workload("origin", wl_origin, quick=400, thorough=14000),
+    Workload("tangent", wl_tangent, quick=300, thorough=10000),
+    Workload("standard", wl_standard, quick=450, thorough=14400),
+    Workload("reflections", wl_reflections, quick=288, thorough=9600),
+    Workload("coxeter", wl_coxeter, quick=96, thorough=1440),
+    Workload("words", wl_words, quick=450, thorough=16000),
+    Workload("library-internal", wl_library_internal, quick=80, thorough=2400),
+    Workload("repo-tests-under-monitors", wl_repo_tests, quick=1, thorough=1),
+    Workload("docs-as-programs", wl_docs, quick=12, thorough=12),
 ]
